@@ -441,7 +441,30 @@ func verifExpectArr(n, limit int, at func(int) any) string {
 	return fmt.Sprintf("arr:%d:[%s]", n, strings.Join(parts, ","))
 }
 
+// verifIndependentSize: byte size of a tensor computed WITHOUT the code under test, for the kinds whose block layout is
+// fixed by the ggml format (type size / block size): elements = product of the dimensions (1 for a scalar), 64-bit wrap.
+func verifIndependentSize(kind uint32, shape []uint64) (uint64, bool) {
+	tb := map[uint32][2]uint64{0: {4, 1}, 1: {2, 1}, 2: {18, 32}, 3: {20, 32}, 6: {22, 32}, 7: {24, 32}, 8: {34, 32}, 24: {1, 1}, 25: {2, 1}, 26: {4, 1}, 27: {8, 1}, 28: {8, 1}, 30: {2, 1}}
+	e, ok := tb[kind]
+	if !ok {
+		return 0, false
+	}
+	n := uint64(1)
+	for _, d := range shape {
+		n *= d
+	}
+	return n * e[0] / e[1], true
+}
+
 func verifC05Case(out *zzverif.Out, dir string, kvs []verifKV, ts []verifTensor, maxArray int) {
+	for _, t := range ts {
+		if want, ok := verifIndependentSize(t.kind, t.shape); ok {
+			if got := (Tensor{Kind: t.kind, Shape: t.shape}).Size(); got != want {
+				out.L2("tensor-size", verifKVLine(nil)+" "+verifTensorLine([]verifTensor{t}), fmt.Sprintf("kind %d shape %v: Tensor.Size() = %d, the format says %d bytes", t.kind, t.shape, got, want))
+			}
+			out.Count("tensor_size_checked_independently")
+		}
+	}
 	data, order, err := verifWrite(dir, kvs, ts)
 	if err != nil {
 		out.Count("write_error")
